@@ -48,6 +48,15 @@ def leaf_script(kind, i, key_x):
         return P(key_x) + b'\xac'
     if kind == 'big':
         return b'\x75' + P(bytes([i % 256]) * 300) + b'\x75\x51'
+    if kind in ('zero00', 'ffff'):
+        # leaf hashes with a chosen first byte (0x00 / 0xff): sibling hashes that agree in a leading 0x00 byte or sort at the extremes
+        want = 0 if kind == 'zero00' else 0xff
+        nonce = 0
+        while True:
+            sc = P(bytes([i % 256]) + nonce.to_bytes(3, 'big')) + b'\x6d\x51'      # <4-byte nonce> OP_2DROP OP_1 (drops nonce and signature)
+            if V.tapleaf(0xc0, sc)[0] == want:
+                return sc
+            nonce += 1
     raise ValueError(kind)
 
 
@@ -188,7 +197,7 @@ def check_case(c, ctx):
         if rb.timed_out:
             raise core.Inconclusive()
         last = rb.out.strip().splitlines()[-1:] if rb.out.strip() else []
-        want_top = [b'01'] if kind in ('checksig', 'same', 'args', 'big') else [b'%02x' % (1 + idx % 16)]
+        want_top = [b'01'] if kind in ('checksig', 'same', 'args', 'big', 'zero00', 'ffff') else [b'%02x' % (1 + idx % 16)]
         if rb.abnormal or rb.rc != 0 or len(rb.out.strip().splitlines()) != 1 or last != want_top:
             raise Violation(c, 'btcdeb does not accept the transaction tap produced for leaf #%d of %d (rc=%s, stack %r, err %r)' % (idx, n, rb.rc, rb.out[-80:], rb.err[-200:]), observed=[rb.rc, rb.out.decode(errors='replace')[-80:]])
     except core.Inconclusive:
@@ -250,7 +259,7 @@ def check_keypath(c, ctx):
         ctx.inconclusive += 1
 
 
-KIND_SETS = [['drop'], ['same'], ['drop', 'same', 'same'], ['checksig', 'drop'], ['args', 'drop'], ['checksig'], ['big', 'drop'], ['drop', 'checksig', 'args', 'same']]
+KIND_SETS = [['drop'], ['same'], ['drop', 'same', 'same'], ['checksig', 'drop'], ['args', 'drop'], ['checksig'], ['big', 'drop'], ['drop', 'checksig', 'args', 'same'], ['zero00'], ['zero00'], ['zero00', 'ffff'], ['ffff', 'drop']]
 PREFIXES = [None, None, 'bc', 'tb', 'bcrt', 'xyz', 'a']
 
 
@@ -271,7 +280,7 @@ def w_grid(ctx, wid, seed, pairs):
 def random_cases(draw):
     n = draw(st.one_of(st.integers(1, 20), st.integers(1, 200), st.sampled_from([1, 2, 3, 63, 64, 65, 127, 128, 129, 255, 256, 257, 1023, 1024])))
     idx = draw(st.integers(0, n - 1))
-    kinds = draw(st.lists(st.sampled_from(['drop', 'same', 'checksig', 'args', 'big']), min_size=1, max_size=5))
+    kinds = draw(st.lists(st.sampled_from(['drop', 'same', 'checksig', 'args', 'big', 'zero00', 'zero00', 'ffff']), min_size=1, max_size=5))
     if n > 100:
         kinds = [k for k in kinds if k != 'big'] or ['drop']
     prefix = draw(st.one_of(st.sampled_from(PREFIXES), st.text(alphabet='abcdefghijklmnopqrstuvwxyz', min_size=1, max_size=8)))
